@@ -63,8 +63,18 @@ Qed.
 
 (* ---------------------------------------------------------------- generic preservation *)
 Section Pres.
-  Variables (PS : sess -> Prop) (PQ : req -> Prop) (PE : wrec * bool -> Prop).
+  Variables (PS : sess -> Prop) (PQ : req -> Prop) (PE : wrec * bool -> Prop) (PC : N -> N -> Prop).
   Hypothesis HQE : forall q a, PQ q -> PE (wire q, a).
+  Hypothesis HSC : forall se, PS se -> PC (s_lin se) (s_lout se).
+  Hypothesis HC0 : PC 0 0.
+
+  (* fetchCounters yields a good pair: the supplied one, a session's last known one, or zeros *)
+  Lemma fetch_PC fe s cin cout l : PC cin cout -> Forall PS l ->
+    PC (fst (fetch_ctr fe s cin cout l)) (snd (fetch_ctr fe s cin cout l)).
+  Proof.
+    intros Hc Hl. unfold fetch_ctr. destruct (existsb _ fe); [|exact Hc].
+    destruct (find_sess s l) as [se|] eqn:E; cbn; [|exact HC0]. apply HSC. eapply Forall_find; eauto.
+  Qed.
 
   Record Inv (x : ms) : Prop := mkInv {
     i_sess : Forall PS (x_sess x);
@@ -130,44 +140,50 @@ Section Pres.
     - intros y Hy. apply Inv_ctick. apply Inv_set_files; [|exact Hy]. apply Forall_put_sess; exact Hs.
   Qed.
 
-  Lemma Inv_do_stop s cause cin cout dn x :
-    (forall se0, PS se0 -> s_id se0 = s ->
-       PS (mkS s (s_ident se0) true cause (s_lin se0) (s_lout se0)) /\ PQ (mkQ ST_STOP s (s_ident se0) cin cout cause)) ->
-    Inv x -> InvR (do_stop s cause cin cout dn x).
+  Lemma Inv_do_stop s cause cin cout fe dn x :
+    PC cin cout ->
+    (forall se0 a b, PS se0 -> PC a b -> s_id se0 = s ->
+       PS (mkS s (s_ident se0) true cause (s_lin se0) (s_lout se0)) /\ PQ (mkQ ST_STOP s (s_ident se0) a b cause)) ->
+    Inv x -> InvR (do_stop s cause cin cout fe dn x).
   Proof.
-    intros Hn Hx. unfold do_stop. destruct (find_sess s (x_sess x)) as [se0|] eqn:E; [|cbn; apply Inv_set_ret; exact Hx].
+    intros Hcc Hn Hx. unfold do_stop. destruct (find_sess s (x_sess x)) as [se0|] eqn:E; [|cbn; apply Inv_set_ret; exact Hx].
     assert (Hse : PS se0) by (eapply Forall_find; [apply (i_sess _ Hx)|exact E]).
     assert (Hid : s_id se0 = s) by (apply find_some in E; apply N.eqb_eq; tauto).
-    destruct (Hn se0 Hse Hid) as [Hs Hq]. cbn [s_ident] in *.
+    destruct (Hn se0 0 0 Hse HC0 Hid) as [Hs _]. cbn [s_ident] in *.
     apply InvR_bind.
     - apply Inv_ctick. apply Inv_set_files; [apply Forall_put_sess; exact Hs|].
       apply Inv_set_sess; [apply Forall_put_sess; exact Hs|exact Hx].
     - intros y Hy. apply InvR_bind.
-      + apply Inv_ctick. apply Inv_send; [exact Hq|exact Hy].
+      + apply Inv_ctick. apply Inv_send; [|exact Hy].
+        apply (Hn se0 _ _ Hse (fetch_PC fe s cin cout (x_sess y) Hcc (i_sess _ Hy)) Hid).
       + intros z Hz. apply Inv_ctick. apply Inv_mark.
         apply Inv_set_files; [apply Forall_filter'|]. apply Inv_set_sess; [apply Forall_filter'|exact Hz].
   Qed.
 
-  Lemma Inv_interim_one cin cout dn se x :
-    (forall h, PS h -> PQ (mkQ ST_INTERIM (s_id h) (s_ident h) cin cout 0) /\
-                       PS (mkS (s_id h) (s_ident h) (s_pend h) (s_cause h) cin cout)) ->
-    PS se -> Inv x -> InvR (interim_one cin cout dn se x).
+  Lemma Inv_interim_one cin cout fe dn se x :
+    PC cin cout ->
+    (forall h a b, PS h -> PC a b -> PQ (mkQ ST_INTERIM (s_id h) (s_ident h) a b 0) /\
+                       PS (mkS (s_id h) (s_ident h) (s_pend h) (s_cause h) a b)) ->
+    PS se -> Inv x -> InvR (interim_one cin cout fe dn se x).
   Proof.
-    intros Hn Hse Hx. unfold interim_one. apply Inv_ctick.
-    assert (Hs : Inv (send (mkQ ST_INTERIM (s_id se) (s_ident se) cin cout 0)
-                           (acked dn (mkQ ST_INTERIM (s_id se) (s_ident se) cin cout 0)) x))
-      by (apply Inv_send; [apply Hn; exact Hse|exact Hx]).
+    intros Hcc Hn Hse Hx. unfold interim_one. apply Inv_ctick.
+    pose proof (fetch_PC fe (s_id se) cin cout (x_sess x) Hcc (i_sess _ Hx)) as Hfc.
+    set (fc := fetch_ctr fe (s_id se) cin cout (x_sess x)) in *.
+    assert (Hs : Inv (send (mkQ ST_INTERIM (s_id se) (s_ident se) (fst fc) (snd fc) 0)
+                           (acked dn (mkQ ST_INTERIM (s_id se) (s_ident se) (fst fc) (snd fc) 0)) x))
+      by (apply Inv_send; [apply Hn; assumption|exact Hx]).
     destruct (acked dn _); [|exact Hs].
     apply Inv_set_sess; [|exact Hs]. intros H. apply Forall_map. eapply Forall_impl; [|exact H].
-    intros h Hh. cbn. destruct (s_id h =? s_id se); [apply Hn; exact Hh|exact Hh].
+    intros h Hh. cbn. destruct (s_id h =? s_id se); [apply Hn; assumption|exact Hh].
   Qed.
 
-  Lemma Inv_do_interim cin cout dn order x :
-    (forall h, PS h -> PQ (mkQ ST_INTERIM (s_id h) (s_ident h) cin cout 0) /\
-                       PS (mkS (s_id h) (s_ident h) (s_pend h) (s_cause h) cin cout)) ->
-    Inv x -> InvR (do_interim cin cout dn order x).
+  Lemma Inv_do_interim cin cout fe dn order x :
+    PC cin cout ->
+    (forall h a b, PS h -> PC a b -> PQ (mkQ ST_INTERIM (s_id h) (s_ident h) a b 0) /\
+                       PS (mkS (s_id h) (s_ident h) (s_pend h) (s_cause h) a b)) ->
+    Inv x -> InvR (do_interim cin cout fe dn order x).
   Proof.
-    intros Hn Hx. unfold do_interim.
+    intros Hcc Hn Hx. unfold do_interim.
     assert (HF : Forall PS (pick s_id order (filter (fun h => negb (s_pend h)) (x_sess x))))
       by (apply Forall_pick, Forall_filter', (i_sess _ Hx)).
     apply InvR_fold_m; [|exact Hx]. intros a y Ha Hy. apply Inv_interim_one; auto.
@@ -206,13 +222,16 @@ Section Pres.
   Lemma Inv_fold_enq qs : forall x, Forall PQ qs -> Inv x -> Inv (fold_left (fun y q => enqueue q y) qs x).
   Proof. induction qs; intros x H Hx; cbn; [exact Hx|]. inversion H; subst. apply IHqs; auto using Inv_enqueue. Qed.
 
-  Lemma Inv_do_graceful cin cout dn qorder g x :
-    (forall h, PS h -> PQ (drain_req cin cout h)) -> Inv x -> InvR (do_graceful cin cout dn qorder g x).
+  Lemma Inv_do_graceful cin cout fe dn qorder g x :
+    PC cin cout ->
+    (forall h a b, PS h -> PC a b -> PQ (mkQ ST_STOP (s_id h) (s_ident h) a b CAUSE_NAS_REBOOT)) ->
+    Inv x -> InvR (do_graceful cin cout fe dn qorder g x).
   Proof.
-    intros Hn Hx. unfold do_graceful.
-    assert (HQ : Forall PQ (map (drain_req cin cout) (x_sess x))).
-    { apply Forall_map. eapply Forall_impl; [|apply (i_sess _ Hx)]. exact Hn. }
-    set (qs := map (drain_req cin cout) (x_sess x)) in *.
+    intros Hcc Hn Hx. unfold do_graceful.
+    assert (HQ : Forall PQ (map (drain_req cin cout fe (x_sess x)) (x_sess x))).
+    { apply Forall_map. eapply Forall_impl; [|apply (i_sess _ Hx)]. intros h Hh. unfold drain_req.
+      apply Hn; [exact Hh|]. apply fetch_PC; [exact Hcc|apply (i_sess _ Hx)]. }
+    set (qs := map (drain_req cin cout fe (x_sess x)) (x_sess x)) in *.
     destruct ((g =? 1) && negb (match qs with [] => true | _ => false end)).
     - cbn. destruct Hx as [? ? ? ? ? ?]. constructor; cbn; auto. apply Forall_app. split; [assumption|].
       apply Forall_map. eapply Forall_impl; [|exact HQ]. intros q Hq. apply HQE. exact Hq.
@@ -261,8 +280,10 @@ Lemma trace_from_cons s o ops :
 Proof. unfold trace_from. cbn. destruct (step s o) as [[s' r] mk]. reflexivity. Qed.
 
 Section StateInv.
-  Variables (PS : sess -> Prop) (PQ : req -> Prop) (PE : wrec * bool -> Prop).
+  Variables (PS : sess -> Prop) (PQ : req -> Prop) (PE : wrec * bool -> Prop) (PC : N -> N -> Prop).
   Hypothesis HQE : forall q a, PQ q -> PE (wire q, a).
+  Hypothesis HSC : forall se, PS se -> PC (s_lin se) (s_lout se).
+  Hypothesis HC0 : PC 0 0.
 
   Definition SI (s : state) : Prop :=
     Forall PS (st_sess s) /\ Forall PS (st_files s) /\ Forall (fun p => PQ (p_req p)) (st_pend s) /\
@@ -283,11 +304,12 @@ Section StateInv.
     match o with
     | Start id idn _ _ => st_alive s = true -> find_sess id (st_sess s) = None ->
                           PS (mkS id idn false 0 0 0) /\ PQ (mkQ ST_START id idn 0 0 0)
-    | Stop id cause cin cout _ _ => forall se0, PS se0 -> s_id se0 = id ->
-         PS (mkS id (s_ident se0) true cause (s_lin se0) (s_lout se0)) /\ PQ (mkQ ST_STOP id (s_ident se0) cin cout cause)
-    | InterimTick cin cout _ _ _ => forall h, PS h -> PQ (mkQ ST_INTERIM (s_id h) (s_ident h) cin cout 0) /\
-                                              PS (mkS (s_id h) (s_ident h) (s_pend h) (s_cause h) cin cout)
-    | GracefulStop cin cout _ _ _ => forall h, PS h -> PQ (drain_req cin cout h)
+    | Stop id cause cin cout _ _ _ => PC cin cout /\ forall se0 a b, PS se0 -> PC a b -> s_id se0 = id ->
+         PS (mkS id (s_ident se0) true cause (s_lin se0) (s_lout se0)) /\ PQ (mkQ ST_STOP id (s_ident se0) a b cause)
+    | InterimTick cin cout _ _ _ _ => PC cin cout /\ forall h a b, PS h -> PC a b ->
+         PQ (mkQ ST_INTERIM (s_id h) (s_ident h) a b 0) /\ PS (mkS (s_id h) (s_ident h) (s_pend h) (s_cause h) a b)
+    | GracefulStop cin cout _ _ _ _ => PC cin cout /\ forall h a b, PS h -> PC a b ->
+         PQ (mkQ ST_STOP (s_id h) (s_ident h) a b CAUSE_NAS_REBOOT)
     | Restart _ _ _ => forall f, PS f ->
          PQ (mkQ ST_STOP (s_id f) (s_ident f) (s_lin f) (s_lout f) (if s_cause f =? 0 then CAUSE_NAS_REBOOT else s_cause f))
     | _ => True
@@ -299,11 +321,11 @@ Section StateInv.
     intros Hs Hc. pose proof (fun c => Inv_enter s c Hs) as He.
     destruct o; cbn [step]; try (destruct (st_alive s) eqn:Ea; [|cbn; split; [exact Hs|constructor]]).
     - apply leave_SI. apply Inv_do_start; auto.
-    - apply leave_SI. apply Inv_do_stop; auto.
-    - apply leave_SI. apply Inv_do_interim; auto.
+    - apply leave_SI. destruct Hc. eapply Inv_do_stop; eauto.
+    - apply leave_SI. destruct Hc. eapply Inv_do_interim; eauto.
     - apply leave_SI. apply Inv_do_queue; auto.
     - apply leave_SI. apply Inv_do_retry; auto.
-    - apply leave_SI. apply Inv_do_graceful; auto.
+    - apply leave_SI. destruct Hc. eapply Inv_do_graceful; eauto.
     - apply leave_SI. cbn. apply He.
     - destruct (st_alive s); [cbn; split; [exact Hs|constructor]|]. apply leave_SI. apply Inv_do_restart; auto.
     - cbn; split; [exact Hs|constructor].
@@ -416,17 +438,23 @@ Proof.
   destruct (acked dn _); cbn; repeat (match goal with |- context [if ?b then _ else _] => destruct b eqn:?; cbn end); reflexivity.
 Qed.
 
+Definition PCb (ctr : list (N * N)) (a b : N) : Prop := in_ctr a b ctr = true.
+
 Lemma opcond_b ss s o :
   let r := snd (fst (step s o)) in
   SI (PSb (ss_reg ss) (ss_ctr ss)) (PQb (ss_reg ss) (ss_ctr ss)) s -> regs_ok ss ->
-  opcond (PSb (ss_reg (pre ss o r)) (ss_ctr (pre ss o r))) (PQb (ss_reg (pre ss o r)) (ss_ctr (pre ss o r))) s o.
+  opcond (PSb (ss_reg (pre ss o r)) (ss_ctr (pre ss o r))) (PQb (ss_reg (pre ss o r)) (ss_ctr (pre ss o r)))
+         (PCb (ss_ctr (pre ss o r))) s o.
 Proof.
   intros r Hs [Hz Hl]. destruct o; cbn [opcond]; auto.
   - intros Ea Ef. subst r. cbn [pre]. rewrite (start_ran s s0 id dn c Ea Ef). cbn.
     split; split; cbn [s_id s_ident s_lin s_lout q_sid q_ident q_in q_out]; auto using in_reg_hd.
-  - cbn [pre ss_reg ss_ctr]. intros se0 [H1 H2] <-. split; split; cbn [s_id s_ident s_lin s_lout q_sid q_ident q_in q_out]; auto using in_ctr_cons, in_ctr_hd.
-  - cbn [pre ss_reg ss_ctr]. intros h [H1 H2]. split; split; cbn [s_id s_ident s_lin s_lout q_sid q_ident q_in q_out]; auto using in_ctr_cons, in_ctr_hd.
-  - cbn [pre ss_reg ss_ctr]. intros h [H1 H2]. split; cbn [drain_req s_id s_ident s_lin s_lout q_sid q_ident q_in q_out]; auto using in_ctr_cons, in_ctr_hd.
+  - cbn [pre ss_reg ss_ctr]. split; [apply in_ctr_hd|]. intros se0 a b [H1 H2] Hab <-.
+    split; split; cbn [s_id s_ident s_lin s_lout q_sid q_ident q_in q_out]; auto.
+  - cbn [pre ss_reg ss_ctr]. split; [apply in_ctr_hd|]. intros h a b [H1 H2] Hab.
+    split; split; cbn [s_id s_ident s_lin s_lout q_sid q_ident q_in q_out]; auto.
+  - cbn [pre ss_reg ss_ctr]. split; [apply in_ctr_hd|]. intros h a b [H1 H2] Hab.
+    split; cbn [s_id s_ident s_lin s_lout q_sid q_ident q_in q_out]; auto.
 Qed.
 
 Lemma events_ok_b k : (k = 2 \/ k = 5 \/ k = 6) -> forall es ss,
@@ -451,7 +479,8 @@ Proof.
   intros Hk. induction ops as [|o ops IH]; intros s ss Hs Hr; [reflexivity|].
   rewrite trace_from_cons. cbn [holds]. set (r := snd (fst (step s o))).
   pose proof (pre_regs_ok ss o r Hr) as Hr1.
-  destruct (step_SI _ _ _ (HQEb _ _ (proj1 Hr1)) s o (SI_mono ss o r s Hs) (opcond_b ss s o Hs Hr)) as [Hs' Hev].
+  destruct (step_SI _ _ _ (PCb (ss_ctr (pre ss o r))) (HQEb _ _ (proj1 Hr1)) (fun se H => proj2 H) (proj1 Hr1) s o
+              (SI_mono ss o r s Hs) (opcond_b ss s o Hs Hr)) as [Hs' Hev].
   fold r in Hev. apply andb_true_iff. split.
   - unfold op_ok. apply andb_true_iff. split; [apply events_ok_b; auto|].
     destruct Hk as [-> | [-> | ->]]; reflexivity.
@@ -473,7 +502,7 @@ Qed.
 (* ---------------------------------------------------------------- clause 4, crash-free histories *)
 Definition quiet_op (o : op) : bool :=
   match o with
-  | Start _ _ _ c | Stop _ _ _ _ _ c | InterimTick _ _ _ _ c | ProcessQueued _ c | RetryTick _ _ c => c =? 0
+  | Start _ _ _ c | Stop _ _ _ _ _ _ c | InterimTick _ _ _ _ _ c | ProcessQueued _ c | RetryTick _ _ c => c =? 0
   | Final => true
   | _ => false
   end.
@@ -1055,18 +1084,18 @@ Definition clause (k : N) : Prop := forall maxr ops, holds k (sinit maxr) (trace
 
 Definition I1 : ident := (1, 2, 3).
 (* (1) the Start fails and is queued; the Stop is sent directly and is accepted first *)
-Definition w1 : list op := [Start 1 I1 [(1, 1)] 0; Stop 1 1 7 9 [] 0; ProcessQueued [] 0].
+Definition w1 : list op := [Start 1 I1 [(1, 1)] 0; Stop 1 1 7 9 [] [] 0; ProcessQueued [] 0].
 (* (3) graceful drain leaves sessions/1.json: the restart sends the acknowledged Stop again *)
-Definition w3a : list op := [Start 1 I1 [] 0; GracefulStop 5 6 [] [] 0; Restart [] [] 0].
+Definition w3a : list op := [Start 1 I1 [] 0; GracefulStop 5 6 [] [] [] 0; Restart [] [] 0].
 (* (3) the record is in the channel and in the retry map: delivered by the scan, sent again from the channel *)
-Definition w3b : list op := [Start 1 I1 [] 0; Stop 1 1 1 2 [(1, 2)] 0; RetryTick [] [] 0; ProcessQueued [] 0].
+Definition w3b : list op := [Start 1 I1 [] 0; Stop 1 1 1 2 [] [(1, 2)] 0; RetryTick [] [] 0; ProcessQueued [] 0].
 (* (4) Stop fails -> queued in memory only, file removed; crash => lost *)
-Definition w4a : list op := [Start 1 I1 [] 0; Stop 1 1 1 2 [(1, 2)] 0; Crash; Final].
+Definition w4a : list op := [Start 1 I1 [] 0; Stop 1 1 1 2 [] [(1, 2)] 0; Crash; Final].
 (* (4) crash between the acknowledged Start and the write of the session file *)
 Definition w4b : list op := [Start 1 I1 [] 1; Final].
 (* (4) pending.json (durable after the graceful stop) is deleted on load; crash => lost *)
 Definition w4c : list op :=
-  [Start 1 I1 [] 0; Stop 1 1 1 2 [(1, 2)] 0; GracefulStop 0 0 [] [] 0; Final; Restart [(1, 2)] [] 0; Crash; Final].
+  [Start 1 I1 [] 0; Stop 1 1 1 2 [] [(1, 2)] 0; GracefulStop 0 0 [] [] [] 0; Final; Restart [(1, 2)] [] 0; Crash; Final].
 (* (4) the Stop recovered from the session file fails: queued in memory, file removed; crash => lost *)
 Definition w4d : list op := [Start 1 I1 [] 0; Crash; Restart [(1, 2)] [] 0; Crash; Final].
 
